@@ -76,6 +76,10 @@ class C16(PureCheck):
             for f in ([[[120, 32, 32, 121, 9, 120], list(ATTS[1])]], [[[120, 121], list(ATTS[0])], [[32, 10], list(ATTS[2])], [[121], list(ATTS[1])]], [], [[[], list(ATTS[0])]]):
                 yield {"op": "linesplit", "f": {"k": "f", "v": f}, "cols": 100000, "huge": hk}
             yield {"op": "linesplit", "f": {"k": "s", "v": [[[120, 32, 121], list(fmtlib.PLAIN)]]}, "cols": 100000, "huge": hk}
+        # one unbroken word that has to be cut into more than a thousand pieces
+        for (n, c) in ((1100, 1), (2600, 2)):
+            yield {"op": "linesplit", "f": {"k": "f", "v": [[[120] * n, list(ATTS[1])]]}, "cols": c}
+            yield {"op": "linesplit", "f": {"k": "s", "v": [[[97, 32] + [121] * n, list(fmtlib.PLAIN)]]}, "cols": c}
         k = 0
         for f in pool:
             for c in range(1, 7):
